@@ -86,7 +86,12 @@ def handle : Handler := fun cmd j =>
     -- convert_archive(archive) for an archive with these members; c = first value of the inode counter
     let ms ← (getArr j "members") >>= fun a => a.mapM parseMember
     let c ← getNat j "c"
-    pure (ofObjs ((archiveToFsobj c ms).bind convertArchive))
+    -- "raise" = AssertionError of archive_to_fsobj (dangling hard link), "symlink-loop" = AssertionError of convert_archive
+    pure (match archiveToFsobj c ms with
+      | none => Json.str "raise"
+      | some raw => match convertArchive raw with
+        | none => Json.str "symlink-loop"
+        | some l => ofObjs (some l))
   | "c25.roundtrip" => do
     let s ← (getArr j "set") >>= fun a => a.mapM parseObj
     let c ← getNat j "c"
